@@ -942,6 +942,7 @@ func (ev binlogEvent) Rows(f BinlogFormat, tm *TableMap) (Rows, error) {
 	// One row at a time.
 	for pos < len(data) {
 		row := Row{}
+		rowStart := pos
 
 		if hasIdentify {
 			// Bitmap of identify columns that are null (amongst the ones that are present).
@@ -1003,6 +1004,11 @@ func (ev binlogEvent) Rows(f BinlogFormat, tm *TableMap) (Rows, error) {
 			row.Data = data[startPos:pos]
 		}
 
+		if pos == rowStart {
+			// A row of zero bytes (no column is present) followed by more data
+			// can only come from a malformed event: there would be no end of rows.
+			return result, fmt.Errorf("rows event has %v bytes left after rows that take none", len(data)-pos)
+		}
 		result.Rows = append(result.Rows, row)
 	}
 
